@@ -77,12 +77,20 @@ impl<'a, T: ColumnProvider> ExpressionExecutionEngine<'a, T> {
                 let left_value = self.evaluate(left)?;
                 let right_value = self.evaluate(right)?;
 
-                match (&left_value, &right_value) {
-                    (Value::Timestamp(left), Value::Interval(right)) => {
+                // A timestamp moved by an interval: timestamp + interval, interval + timestamp, timestamp - interval.
+                // Any other operator between the two has no value.
+                match (&left_value, &right_value, operator) {
+                    (Value::Timestamp(left), Value::Interval(right), ArithmeticOperator::Add) => {
                         return left.checked_add_signed(right.clone()).map(|value| Value::Timestamp(value)).ok_or(EvaluationError::UndefinedOperation);
                     }
-                    (Value::Interval(left), Value::Timestamp(right)) => {
+                    (Value::Timestamp(left), Value::Interval(right), ArithmeticOperator::Subtract) => {
+                        return left.checked_sub_signed(right.clone()).map(|value| Value::Timestamp(value)).ok_or(EvaluationError::UndefinedOperation);
+                    }
+                    (Value::Interval(left), Value::Timestamp(right), ArithmeticOperator::Add) => {
                         return right.checked_add_signed(left.clone()).map(|value| Value::Timestamp(value)).ok_or(EvaluationError::UndefinedOperation);
+                    }
+                    (Value::Timestamp(_), Value::Interval(_), _) | (Value::Interval(_), Value::Timestamp(_), _) => {
+                        return Err(EvaluationError::UndefinedOperation);
                     }
                     _ => {}
                 }
